@@ -18,8 +18,28 @@ def configs(ctx):
     return allc
 
 
+def design(ctx):
+    """Design level (TLC only): the weight layout the trainer uses makes the model compute the learned function, for every
+    configuration of the family incl. differing windows; the mutant that uses the character window for type vectors is rejected."""
+    q = ctx.quick
+    consts = {"CWs": {1, 2, 3}, "CNs": {1, 3} if q else {1, 2, 3}, "TWs": {1, 2, 3}, "TNs": {1, 3}, "DictSel": {0, 6} if q else {0, 6, 14},
+              "DNs": {1, 2}, "Alphabet": {97, 12354}, "MaxText": 3 if q else 4, "UseCharWindowForTypes": False}
+    res = vlib.tlc("C09-mc-trainer", "MC_Trainer", vlib.cfg_text(constants=consts, invariants=["ModelComputesLearnedFunction", "OwnWindowLayout"]),
+                   timeout=3000)
+    if res["violated"]:
+        raise vlib.ToolError("MC_Trainer: design-level invariant violated: " + res["violated"])
+    ctx.add_tlc(res, f"MC_Trainer: weight layout => the model computes bias + sum of learned feature weights, {res['distinct'] // 2} configurations "
+                     "incl. differing windows, every text up to the bound")
+    consts.update({"UseCharWindowForTypes": True, "CNs": {1}, "DictSel": {0}, "DNs": {1}, "MaxText": 3})
+    resm = vlib.tlc("C09-mut-trainer", "MC_Trainer", vlib.cfg_text(constants=consts, invariants=["ModelComputesLearnedFunction"]))
+    if resm["violated"] != "ModelComputesLearnedFunction":
+        raise vlib.ToolError("spec mutant (type vectors laid out with the character window) was not rejected by TLC")
+    ctx.add_part(spec_mutant="type n-gram vectors sized/indexed with the character window", rejected_by="ModelComputesLearnedFunction")
+
+
 def run(ctx):
     binp = vlib.build_harness()
+    design(ctx)
     ctx.rule = ("real training runs (liblinear) over configurations (char window, char n, type window, type n) in 1..3 incl. "
                 "differing windows and n > window, dictionaries {none, short words, words longer than the bucket}, buckets, two "
                 "solvers, tokenized and partially annotated corpora; the learner's quantised output is read through the hooks and "
